@@ -79,7 +79,8 @@ func c07Script(r *rand.Rand, n int) *scriptSpec {
 		var b []item
 		k := r.Intn(7)
 		if r.Intn(30) == 0 {
-			k = pick(r, 4094, 4095, 4096, 4100)
+			measureBatchMax()
+			k = pick(r, batchMax-2, batchMax-1, batchMax, batchMax+4)
 		}
 		b = append(b, msgs(ids, k)...)
 		if last {
